@@ -65,6 +65,9 @@ class Parser:
         self._error_output = ''
         self._load_runtime()
         self._tokens = Lex(input_string).tokens()
+        # Forget the end-of-file token a previous compile may have left here;
+        # next_token() refuses to go past one.
+        self._current_token = Token(TokenTypes.UNKNOWN)
         self.next_token()
         return self._script()
 
